@@ -128,20 +128,20 @@ theorem step (load : R → Option (Collection R E)) (fuel : Nat) (c : Collection
       have ht0 := tabulate_items' ([] : List E) s 0 (by omega) (by omega)
       by_cases h3 : 3 < e + 1
       · have h3i : (3 : Int) < (e : Int) + 1 := by omega
-        simp [toPage, Page.elemsFailed, Page.items, Go.errNotNil, Go.errIs, hu, hw, Go.ulen, nextEmpties, threshold, h3, h3i]
+        simp [toPage, Page.elemsFailed, Page.items, Go.errNotNil, Go.errIsOpt, hu, hw, Go.ulen, nextEmpties, threshold, h3, h3i]
         rfl
       · have h3i : ¬ (3 : Int) < (e : Int) + 1 := by omega
         rcases ne with _ | _ | _
         · cases hld : load nx with
           | none =>
-            simp [toPage, Page.elemsFailed, Page.items, Go.errNotNil, Go.errIs, hu, hw, Go.ulen, nextEmpties, threshold, h3, h3i, ht0, Go.usub, hld]
+            simp [toPage, Page.elemsFailed, Page.items, Go.errNotNil, Go.errIsOpt, hu, hw, Go.ulen, nextEmpties, threshold, h3, h3i, ht0, Go.usub, hld]
             rfl
           | some p =>
-            simp [toPage, Page.elemsFailed, Page.items, Go.errNotNil, Go.errIs, hu, hw, Go.ulen, nextEmpties, threshold, h3, h3i, ht0, Go.usub, hld]
+            simp [toPage, Page.elemsFailed, Page.items, Go.errNotNil, Go.errIsOpt, hu, hw, Go.ulen, nextEmpties, threshold, h3, h3i, ht0, Go.usub, hld]
             rec_cases
-        · simp [toPage, Page.elemsFailed, Page.items, Go.errNotNil, Go.errIs, hu, hw, Go.ulen, nextEmpties, threshold, h3, h3i, ht0, Go.usub]
+        · simp [toPage, Page.elemsFailed, Page.items, Go.errNotNil, Go.errIsOpt, hu, hw, Go.ulen, nextEmpties, threshold, h3, h3i, ht0, Go.usub]
           rfl
-        · simp [toPage, Page.elemsFailed, Page.items, Go.errNotNil, Go.errIs, hu, hw, Go.ulen, nextEmpties, threshold, h3, h3i, ht0, Go.usub]
+        · simp [toPage, Page.elemsFailed, Page.items, Go.errNotNil, Go.errIsOpt, hu, hw, Go.ulen, nextEmpties, threshold, h3, h3i, ht0, Go.usub]
           rfl
     · have hx' : els ≠ [] := fun h => hx (by simp [h])
       by_cases hs : s ≥ els.length
@@ -152,18 +152,18 @@ theorem step (load : R → Option (Collection R E)) (fuel : Nat) (c : Collection
         rcases ne with _ | _ | _
         · cases hld : load nx with
           | none =>
-            simp [toPage, Page.elemsFailed, Page.items, Go.errNotNil, Go.errIs, hu, hw, Go.ulen, nextEmpties, threshold, hx, hx', hs, hl, ht0, hd, hsub, Go.usub, hld]
+            simp [toPage, Page.elemsFailed, Page.items, Go.errNotNil, Go.errIsOpt, hu, hw, Go.ulen, nextEmpties, threshold, hx, hx', hs, hl, ht0, hd, hsub, Go.usub, hld]
             rfl
           | some p =>
-            simp [toPage, Page.elemsFailed, Page.items, Go.errNotNil, Go.errIs, hu, hw, Go.ulen, nextEmpties, threshold, hx, hx', hs, hl, ht0, hd, hsub, Go.usub, hld]
+            simp [toPage, Page.elemsFailed, Page.items, Go.errNotNil, Go.errIsOpt, hu, hw, Go.ulen, nextEmpties, threshold, hx, hx', hs, hl, ht0, hd, hsub, Go.usub, hld]
             rec_cases
-        · simp [toPage, Page.elemsFailed, Page.items, Go.errNotNil, Go.errIs, hu, hw, Go.ulen, nextEmpties, threshold, hx, hx', hs, hl, ht0, hd, hsub, Go.usub]
+        · simp [toPage, Page.elemsFailed, Page.items, Go.errNotNil, Go.errIsOpt, hu, hw, Go.ulen, nextEmpties, threshold, hx, hx', hs, hl, ht0, hd, hsub, Go.usub]
           rfl
-        · simp [toPage, Page.elemsFailed, Page.items, Go.errNotNil, Go.errIs, hu, hw, Go.ulen, nextEmpties, threshold, hx, hx', hs, hl, ht0, hd, hsub, Go.usub]
+        · simp [toPage, Page.elemsFailed, Page.items, Go.errNotNil, Go.errIsOpt, hu, hw, Go.ulen, nextEmpties, threshold, hx, hx', hs, hl, ht0, hd, hsub, Go.usub]
           rfl
       · by_cases hl : els.length > a + s
         · have ht := tabulate_items' els s a (by omega) (by omega)
-          simp [toPage, Page.elemsFailed, Page.items, Go.errNotNil, Go.errIs, hu, hw, Go.ulen, nextEmpties, threshold, hx, hx', hs, hl, ht]
+          simp [toPage, Page.elemsFailed, Page.items, Go.errNotNil, Go.errIsOpt, hu, hw, Go.ulen, nextEmpties, threshold, hx, hx', hs, hl, ht]
           rfl
         · have hsub : Go.usub els.length s = els.length - s := by unfold Go.usub; split <;> omega
           have hsub2 : Go.usub a (els.length - s) = a - (els.length - s) := by unfold Go.usub; split <;> omega
@@ -174,35 +174,35 @@ theorem step (load : R → Option (Collection R E)) (fuel : Nat) (c : Collection
           rcases ne with _ | _ | _
           · cases hld : load nx with
             | none =>
-              simp [toPage, Page.elemsFailed, Page.items, Go.errNotNil, Go.errIs, hu, hw, Go.ulen, nextEmpties, threshold, hx, hx', hs, hl, ht, hsub, hsub2, hld]
+              simp [toPage, Page.elemsFailed, Page.items, Go.errNotNil, Go.errIsOpt, hu, hw, Go.ulen, nextEmpties, threshold, hx, hx', hs, hl, ht, hsub, hsub2, hld]
               rfl
             | some p =>
-              simp [toPage, Page.elemsFailed, Page.items, Go.errNotNil, Go.errIs, hu, hw, Go.ulen, nextEmpties, threshold, hx, hx', hs, hl, ht, hsub, hsub2, hld]
+              simp [toPage, Page.elemsFailed, Page.items, Go.errNotNil, Go.errIsOpt, hu, hw, Go.ulen, nextEmpties, threshold, hx, hx', hs, hl, ht, hsub, hsub2, hld]
               rec_cases
-          · simp [toPage, Page.elemsFailed, Page.items, Go.errNotNil, Go.errIs, hu, hw, Go.ulen, nextEmpties, threshold, hx, hx', hs, hl, ht, hsub, hsub2]
+          · simp [toPage, Page.elemsFailed, Page.items, Go.errNotNil, Go.errIsOpt, hu, hw, Go.ulen, nextEmpties, threshold, hx, hx', hs, hl, ht, hsub, hsub2]
             rfl
-          · simp [toPage, Page.elemsFailed, Page.items, Go.errNotNil, Go.errIs, hu, hw, Go.ulen, nextEmpties, threshold, hx, hx', hs, hl, ht, hsub, hsub2]
+          · simp [toPage, Page.elemsFailed, Page.items, Go.errNotNil, Go.errIsOpt, hu, hw, Go.ulen, nextEmpties, threshold, hx, hx', hs, hl, ht, hsub, hsub2]
             rfl
   · -- no `items` key: an empty page
     have ht0 := tabulate_items' els s 0 (by omega) (by omega)
     by_cases h3 : 3 < e + 1
     · have h3i : (3 : Int) < (e : Int) + 1 := by omega
-      simp [toPage, Page.elemsFailed, Page.items, Go.errNotNil, Go.errIs, hu, hw, Go.ulen, nextEmpties, threshold, h3, h3i]
+      simp [toPage, Page.elemsFailed, Page.items, Go.errNotNil, Go.errIsOpt, hu, hw, Go.ulen, nextEmpties, threshold, h3, h3i]
       rfl
     · have h3i : ¬ (3 : Int) < (e : Int) + 1 := by omega
       rcases ne with _ | _ | _
       · cases hld : load nx with
         | none =>
-          simp [toPage, Page.elemsFailed, Page.items, Go.errNotNil, Go.errIs, hu, hw, Go.ulen, nextEmpties, threshold, h3, h3i, ht0, Go.usub, hld]
+          simp [toPage, Page.elemsFailed, Page.items, Go.errNotNil, Go.errIsOpt, hu, hw, Go.ulen, nextEmpties, threshold, h3, h3i, ht0, Go.usub, hld]
           rfl
         | some p =>
-          simp [toPage, Page.elemsFailed, Page.items, Go.errNotNil, Go.errIs, hu, hw, Go.ulen, nextEmpties, threshold, h3, h3i, ht0, Go.usub, hld]
+          simp [toPage, Page.elemsFailed, Page.items, Go.errNotNil, Go.errIsOpt, hu, hw, Go.ulen, nextEmpties, threshold, h3, h3i, ht0, Go.usub, hld]
           rec_cases
-      · simp [toPage, Page.elemsFailed, Page.items, Go.errNotNil, Go.errIs, hu, hw, Go.ulen, nextEmpties, threshold, h3, h3i, ht0, Go.usub]
+      · simp [toPage, Page.elemsFailed, Page.items, Go.errNotNil, Go.errIsOpt, hu, hw, Go.ulen, nextEmpties, threshold, h3, h3i, ht0, Go.usub]
         rfl
-      · simp [toPage, Page.elemsFailed, Page.items, Go.errNotNil, Go.errIs, hu, hw, Go.ulen, nextEmpties, threshold, h3, h3i, ht0, Go.usub]
+      · simp [toPage, Page.elemsFailed, Page.items, Go.errNotNil, Go.errIsOpt, hu, hw, Go.ulen, nextEmpties, threshold, h3, h3i, ht0, Go.usub]
         rfl
-  · simp [toPage, Page.elemsFailed, Go.errNotNil, Go.errIs]
+  · simp [toPage, Page.elemsFailed, Go.errNotNil, Go.errIsOpt]
     rfl
 
 /-- The translated function returns (no panic, fuel sufficient) what the model returns. -/
